@@ -220,6 +220,17 @@ def run(c, chk):
     # R16.12: the private copy is reallocated and freed by its context: nothing else holds a pointer into it
     from . import c07 as _c07t
     _c07t.table_pointers_not_kept(c, chk, rid='R16.12')
+    if not isinstance(chk, report.SubCheck):
+        # R16.13: what a context shares with its sections by reference (the search path) is not released with one of them
+        from . import c08 as _c08q, c19 as _c19q
+        chk.rule('R16.13', 'replacing or removing a section instance never releases the search path the instances share with their root (rule R7.3 of C07)')
+        _c07t.searchpath_rule(c, _c08q.chk_proxy(chk, {'R7.3': 'R16.13'}), sym.Explorer(c.modules, max_visits=2, mod_sets=c.mod_sets, max_paths=200000))
+        # R16.14: a callback set on one instance is invisible in its siblings: the print filter in force for an instance is its own or
+        # the inherited one, never a sibling's
+        chk.rule('R16.14', 'the print filter applied in an instance is its own, else the inherited one (rule R19.2 of C19): a filter set on one instance does not reach the next')
+        sub19 = report.SubCheck(chk, 'R16.14', 'C19', only=('R19.2',))
+        _c19q.run(c, sub19)
+        sub19.done('print filters')
     # R16.11: the scanner is shared by all contexts: where one leaves it must not matter to the next
     if not isinstance(chk, report.SubCheck):
         chk.rule('R16.11', 'every scan begins in the initial start condition (rule R8.1 of C08): a context is not read as the continuation of a comment another context ended in')
